@@ -747,6 +747,8 @@ func runC15(r *Run, rng *Rng, thorough bool) {
 			}
 		}
 	}
+	// (8) the token layer behind FromJSON: unmarshalKeys / skipValue alone, against the model of the two loops
+	jtokCases(r, rng, reps, 48)
 }
 
 // hasNonUTF8Text: a text value that JSON cannot carry unchanged (encoding/json substitutes U+FFFD)
